@@ -9,7 +9,6 @@
 package c14
 
 import (
-	"context"
 	"fmt"
 	"runtime"
 	"sort"
@@ -44,6 +43,7 @@ type Upd struct {
 	UAtOff int64  `json:"uat_off"`
 	Starts int64  `json:"starts_off"`
 	Ends   int64  `json:"ends_off"`
+	Cancel string `json:"cancel,omitempty"`    // "", "pre", "mid": state of the submission's context (see submitCtx)
 	GapUs  int    `json:"gap_us,omitempty"`    // ViaAPI: virtual microseconds slept before this POST
 	Pub    *Ver   `json:"published,omitempty"` // observed: what Put published for this update
 }
@@ -264,35 +264,53 @@ func runCase(t *testing.T, c *Case) (viol []vh.Violation, tags map[string]int) {
 			next := idx
 			u := &c.Updates[idx]
 			var pub *alert.Alert
+			ctx, cancel := submitCtx(u.Cancel)
+			defer cancel()
+			if u.Cancel != "" {
+				tags["submitted-with-cancelled-context-"+u.Cancel]++
+			}
+			fp := labelSets[u.LS].Fingerprint()
+			refused := false
 			if c.ViaAPI {
 				time.Sleep(time.Duration(u.GapUs) * time.Microsecond)
 				var ends time.Time
 				if u.Kind == "resolve" {
 					ends = time.Now()
 				}
-				if code := postAlert(api, labelSets[u.LS], next, ends); code != 200 {
-					t.Fatalf("POST /api/v2/alerts: status %d", code)
+				if code := postAlert(ctx, api, labelSets[u.LS], next, ends); code != 200 {
+					if u.Cancel == "" {
+						t.Fatalf("POST /api/v2/alerts: status %d", code)
+					}
+					refused = true
 				}
-				p, err := rig.Alerts.Get(labelSets[u.LS].Fingerprint())
-				if err != nil {
-					t.Fatalf("Get after POST: %v", err)
-				}
-				pub = p
 				tags["posted-via-api"]++
 			} else {
 				a := &alert.Alert{Alert: model.Alert{Labels: labelSets[u.LS].Clone(), Annotations: model.LabelSet{"v": model.LabelValue(strconv.Itoa(next))},
 					StartsAt: time.Unix(0, t0+u.Starts), EndsAt: time.Unix(0, t0+u.Ends)}, UpdatedAt: time.Unix(0, t0+u.UAtOff), Timeout: u.Kind != "resolve"}
-				if err := rig.Alerts.Put(context.Background(), a); err != nil {
-					t.Fatalf("Put: %v", err)
+				if err := rig.Alerts.Put(ctx, a); err != nil {
+					if u.Cancel == "" {
+						t.Fatalf("Put: %v", err)
+					}
+					refused = true
 				}
-				p, err := rig.Alerts.Get(a.Fingerprint())
-				if err != nil {
-					t.Fatalf("Get after Put: %v", err)
+			}
+			p, err := rig.Alerts.Get(fp)
+			stored := err == nil && string(p.Annotations["v"]) == strconv.Itoa(next)
+			if refused {
+				// all-or-nothing: a submission the provider refused must not be visible in the provider
+				if stored {
+					viol = append(viol, vh.Violation{Key: "put-error-but-stored", What: fmt.Sprintf("submission %d (context %s) returned an error but the provider stored and serves it", next, u.Cancel), Case: c})
+				} else {
+					tags["submission-refused"]++
+					return nil
 				}
-				pub = p
-				if pub != a {
-					tags["put-merged"]++
-				}
+			}
+			if err != nil {
+				t.Fatalf("Get after submit: %v", err)
+			}
+			pub = p
+			if !c.ViaAPI && string(pub.Annotations["v"]) == strconv.Itoa(next) && pub.UpdatedAt.UnixNano() != t0+u.UAtOff {
+				tags["put-merged"]++
 			}
 			v := verOf(pub, u.LS)
 			u.Pub = &v
@@ -329,6 +347,13 @@ func runCase(t *testing.T, c *Case) (viol []vh.Violation, tags map[string]int) {
 			// Recv: submit the next update; exactly one idle real worker receives it and parks at the yield point
 			u := &c.Updates[next]
 			pub := submit(next)
+			if pub == nil {
+				// the provider refused the submission and stored nothing: the requested schedule has no alert to hand to
+				// a worker here; drain the rest free-running and judge the end state
+				next++
+				unreal = true
+				break
+			}
 			next++
 			synctest.Wait()
 			got := ""
@@ -366,7 +391,13 @@ func runCase(t *testing.T, c *Case) (viol []vh.Violation, tags map[string]int) {
 			}
 			bind = map[int]string{}
 			c.Unrealisable, c.SchedRequested = true, c.Sched
-			c.Sched = completeSched(c.W, len(c.Updates), nil) // what was executed: every update applied in submission order
+			npub := 0
+			for _, u := range c.Updates {
+				if u.Pub != nil {
+					npub++
+				}
+			}
+			c.Sched = completeSched(c.W, npub, nil) // what was executed: every published update applied in submission order
 			tags["schedule-not-realisable"]++
 		}
 		if len(bind) != 0 || next != len(c.Updates) {
@@ -375,8 +406,14 @@ func runCase(t *testing.T, c *Case) (viol []vh.Violation, tags map[string]int) {
 		synctest.Wait()
 		// every published alert must have been processed (routeAlert completed) once everything is released: an alert that
 		// was published but never processed is lost - a defect, whatever the worker structure
-		if done := rig.Disp.VerifProcessedAlerts(); done != uint64(len(c.Updates)) {
-			viol = append(viol, vh.Violation{Key: "update-lost", What: fmt.Sprintf("%d alerts were published but only %d were processed by the dispatcher after the run drained", len(c.Updates), done), Case: c})
+		npub := 0
+		for _, u := range c.Updates {
+			if u.Pub != nil {
+				npub++
+			}
+		}
+		if done := rig.Disp.VerifProcessedAlerts(); done != uint64(npub) {
+			viol = append(viol, vh.Violation{Key: "update-lost", What: fmt.Sprintf("the provider accepted and stored %d updates but the dispatcher's subscription processed %d after the run drained: an update accepted by the provider did not reach the subscriber", npub, done), Case: c})
 		}
 
 		// observation
@@ -444,10 +481,19 @@ func oracle(c *Case, tags map[string]int) (viol []vh.Violation) {
 				viol = append(viol, vh.Violation{Key: "update-lost", What: fmt.Sprintf("group %d does not hold label set %d after the queue drained", gid, ls), Case: c})
 			case h != l:
 				key := "group-holds-unknown-version"
+				anyCancel := false
+				for _, u := range c.Updates {
+					if u.Cancel != "" {
+						anyCancel = true
+					}
+				}
 				for _, v := range all[ls] {
 					if v == h {
 						key = "older-update-overwrites-newer"
 					}
+				}
+				if anyCancel {
+					key = "provider-and-group-disagree" // the provider serves the last submitted version, the group does not hold it
 				}
 				what := fmt.Sprintf("group %d holds version tag=%d (UpdatedAt +%dms) of label set %d, the last submitted is tag=%d (UpdatedAt +%dms)", gid, h.Tag, (h.UAt-946684800_000_000_000)/ms, ls, l.Tag, (l.UAt-946684800_000_000_000)/ms)
 				if l.Ends <= 946684800_000_000_000 && h.Ends > 946684800_000_000_000 {
@@ -515,6 +561,14 @@ func genCases(env vh.Env, r *vh.Rand) []Case {
 		for s := 0; s < seqs; s++ {
 			cfg := s % len(configs)
 			ups := genUpdates(r.Fork(), n, 0, 1, s%3 == 2, false)
+			// the submission's context: live, already cancelled, or cancelled during the call (the provider must not care)
+			switch s % 3 {
+			case 1:
+				ups[n-1].Cancel = "pre"
+			case 2:
+				ups[0].Cancel = "mid"
+				ups[n-1].Cancel = "pre"
+			}
 			for _, w := range words(2, 2*n) {
 				cases = append(cases, Case{W: 2, Config: cfg, Updates: cloneUpds(ups), Sched: completeSched(2, n, w), Note: "exhaustive"})
 			}
@@ -536,6 +590,9 @@ func genCases(env vh.Env, r *vh.Rand) []Case {
 				ups[i].GapUs = 100 * rr.Range(1, 4)
 			}
 		}
+		if s%2 == 1 {
+			ups[n-1].Cancel = "pre" // the client disconnected before the handler stores the update
+		}
 		for _, w := range words(2, 2*n) {
 			cases = append(cases, Case{W: 2, Config: s % len(configs), Updates: cloneUpds(ups), Sched: completeSched(2, n, w), ViaAPI: true, Note: "api-exhaustive"})
 		}
@@ -554,6 +611,15 @@ func genCases(env vh.Env, r *vh.Rand) []Case {
 		ties := r.Chance(1, 6)
 		ups := genUpdates(r.Fork(), n, ls0, ls1, r.Chance(2, 3), ties)
 		via := !ties && r.Chance(1, 4)
+		rc := r.Fork()
+		for j := range ups {
+			switch rc.Intn(8) {
+			case 0:
+				ups[j].Cancel = "pre"
+			case 1:
+				ups[j].Cancel = "mid"
+			}
+		}
 		if via {
 			for j := range ups {
 				ups[j].GapUs = 100 * r.Range(1, 9)
@@ -673,10 +739,13 @@ func judgeStat(t *testing.T, run *vh.Run, p StatParams) {
 		name += "_via_api"
 	}
 	run.Rep.Distribution[name] = map[string]any{"params": p, "rounds_run": r.Rounds, "updates": r.Updates, "groups_holding_older_version": r.Reordered,
-		"lost": r.Lost, "stamp_ties": r.StampTies, "millis": r.Millis, "gomaxprocs": runtime.GOMAXPROCS(0), "ingestion_workers": realWorkers()}
+		"lost": r.Lost, "stamp_ties": r.StampTies, "refused_but_stored": r.RefusedStored, "millis": r.Millis, "gomaxprocs": runtime.GOMAXPROCS(0), "ingestion_workers": realWorkers()}
 	if r.Reordered > 0 {
 		run.Violate("older-update-overwrites-newer", fmt.Sprintf("%s engine (real goroutines, no hooks): %d stored versions older than the last submitted one after %d rounds / %d updates; %s",
 			p.Engine, r.Reordered, r.Rounds, r.Updates, r.First), Case{Stat: &p, Note: replayNote})
+	}
+	if r.RefusedStored > 0 {
+		run.Violate("put-error-but-stored", fmt.Sprintf("%s engine: %d submissions with a cancelled context returned an error although the provider stored and serves the update", p.Engine, r.RefusedStored), Case{Stat: &p, Note: replayNote})
 	}
 	if r.StampTies > 0 {
 		run.Violate("api-stamps-not-strictly-increasing", fmt.Sprintf("%s engine, updates POSTed back-to-back through the real handler: %d POSTs got an UpdatedAt not later than the previous POST of the same label set; %s",
